@@ -125,6 +125,27 @@ WellFormedV2(f, codec, K, L, inserts) ==
     /\ TreeCovers(f, L)
     /\ Holds(f, L, inserts)
 
+\* number of entries held by the data blocks of the tree
+RECURSIVE CountData(_, _, _, _)
+CountData(f, t, x, L) ==
+    IF x > Len(t) THEN 0
+    ELSE (IF t[x][2] = L + 1 THEN NE(f.blocks[t[x][1]]) ELSE 0) + CountData(f, t, x + 1, L)
+
+\* a well-formed version-2 file whose content is not known in advance (the chunk files a sorter
+\* writes): everything of WellFormedV2 except the comparison with the inserts
+StructOk(f, codec, K, L) ==
+    /\ Len(f.trailer) = 22
+    /\ LE64Fits(f.trailer, 1) /\ LE64Fits(f.trailer, 10)
+    /\ f.trailer[9] = codec /\ f.trailer[18] = L /\ SubSeq(f.trailer, 19, 22) = MagicV2
+    /\ Contiguous(f)
+    /\ \A i \in 1..NB(f) : BlockOk(f.blocks[i], K)
+    /\ BlocksAscending(f)
+    /\ Root(f) # 0
+    /\ TreeOk(f, Root(f), 0, L)
+    /\ TreeCovers(f, L)
+    /\ LE64(f.trailer, 10) = CountData(f, Tree(f, L), 1, L)
+    /\ Ascending(DataKeys(f, Tree(f, L), 1, L))
+
 (***************************************************************************)
 (* C15.  B is the effective block size (after the 1024 clamp).  A data     *)
 (* block, or an index block at depth >= 2, was emitted as soon as it       *)
